@@ -78,6 +78,10 @@ func ParseCFF2(src []byte) (*CFF2, error) {
 		return nil, err
 	}
 
+	if len(fdIndex) == 0 {
+		return nil, errors.New("invalid empty font dict index")
+	}
+
 	out.fonts = make([]privateFonts, len(fdIndex))
 	// private dict reference
 	for i, font := range fdIndex {
